@@ -89,10 +89,13 @@ def firstCode : List Item → Option Item
   | [] => none
   | x :: rest => if x.isComment then firstCode rest else some x
 
-/-- the first item that is neither a comment nor an opening parenthesis -/
+/-- the first item that is neither a comment nor an opening parenthesis, provided it is not itself
+the name of a nested binding (`x = (x = y)`: what follows it is not an `=`) -/
 def firstValue : List Item → Option Item
   | [] => none
-  | x :: rest => if x.isComment || x == .punct "(" then firstValue rest else some x
+  | x :: rest =>
+    if x.isComment || x == .punct "(" then firstValue rest
+    else if firstCode rest == some (.punct "=") then none else some x
 
 /-- leading comments and closing parentheses of a list, and what follows them -/
 def spanTrail : List Item → List Item × List Item
